@@ -83,6 +83,11 @@ def _job(args):
         except BaseException as e:  # noqa
             out.append((k, None, ["harness error %s: %s" % (type(e).__name__, e)], {}))
             continue
+        if not r.get("fired"):
+            # the script ended before loop iteration k was reached: iteration counts are not reproducible for
+            # scripts whose backend runs in a thread pool (AsyncPathIO).  No cut happened, nothing to judge.
+            out.append((k, None, [], {"not_fired": True}))
+            continue
         c = complaints_of(kind, r)
         out.append((k, r, c, point_class(r)))
     return idx, kind, out
@@ -115,6 +120,9 @@ def _run(ctx, compare=True):
     for idx, kind, out in results:
         sc = corpus[idx]
         for k, r, complaints, pc in out:
+            if pc.get("not_fired"):
+                res.count("cut_position_beyond_end_of_this_run")
+                continue
             res.cases += 1
             res.count("kind=" + kind)
             res.count("scenario=" + sc.name)
